@@ -42,7 +42,7 @@ Definition parse_header (cur : bytes) : tzres (header * bytes) :=
   let! '(magic, cur) := read_exact 4 cur in
   if negb (text_eqb magic [84; 90; 105; 102]) then TzErr else
   let! '(vb, cur) := read_exact 1 cur in
-  let! ver := (match vb with [0] => TzOk V1 | [50] => TzOk V2 | [51] => TzOk V3 | _ => TzErr end) in
+  let! ver := (match vb with [b] => if b =? 0 then TzOk V1 else if b =? 50 then TzOk V2 else if b =? 51 then TzOk V3 else TzErr | _ => TzErr end) in
   let! '(_, cur) := read_exact 15 cur in
   let! '(a, cur) := read_exact 4 cur in
   let! '(b, cur) := read_exact 4 cur in
@@ -81,24 +81,21 @@ Definition remove_designation (cur : bytes) : tzres bytes :=
 (* <int>::from_str on a byte slice; mx = the type's maximum, the slices used never start with '-' *)
 Definition parse_int (mx : Z) (bs : bytes) : tzres Z := match parse_unsigned mx bs with Some v => TzOk v | None => TzErr end.
 
+Definition head_is (c : Z) (cur : bytes) : bool := match cur with b :: _ => b =? c | [] => false end.
 Definition parse_hms (cur : bytes) : tzres (Z * Z * Z * Z * bytes) :=
   let! nx := get_next cur in
   let '(direction, cur) := if nx =? 45 then (-1, tl cur) else if nx =? 43 then (1, tl cur) else (1, cur) in
   let '(hd, cur) := read_while is_ascii_digit cur in
   let! hour := parse_int I32_MAX hd in
-  match cur with
-  | 58 :: cur1 =>
-      let '(md, cur2) := read_while is_ascii_digit cur1 in
+  if head_is 58 cur then
+      let '(md, cur2) := read_while is_ascii_digit (tl cur) in
       let! minute := parse_int I32_MAX md in
-      match cur2 with
-      | 58 :: cur3 =>
-          let '(sd, cur4) := read_while is_ascii_digit cur3 in
+      if head_is 58 cur2 then
+          let '(sd, cur4) := read_while is_ascii_digit (tl cur2) in
           let! second := parse_int I32_MAX sd in
           TzOk (direction, hour, minute, second, cur4)
-      | _ => TzOk (direction, hour, minute, 0, cur2)
-      end
-  | _ => TzOk (direction, hour, 0, 0, cur)
-  end.
+      else TzOk (direction, hour, minute, 0, cur2)
+  else TzOk (direction, hour, 0, 0, cur).
 
 Definition parse_tz_offset (max_hour : Z) (cur : bytes) : tzres (Z * bytes) :=
   let! '(direction, hour, minute, second, cur) := parse_hms cur in
@@ -130,10 +127,8 @@ Definition parse_rule (cur : bytes) (ext : bool) : tzres (rule_day * Z * bytes) 
        if negb ((1 <=? m) && (m <=? 12)) || negb ((1 <=? w) && (w <=? 5)) || (6 <? d) then TzErr
        else TzOk (MonthWeekDay m w d, cur)
      else TzErr) in
-  match cur with
-  | 47 :: cur1 => let! '(t, cur2) := parse_tz_offset (if ext then 167 else 24) cur1 in TzOk (day, t, cur2)
-  | _ => TzOk (day, 7200, cur)
-  end.
+  if head_is 47 cur then let! '(t, cur2) := parse_tz_offset (if ext then 167 else 24) (tl cur) in TzOk (day, t, cur2)
+  else TzOk (day, 7200, cur).
 
 (* std::str::from_utf8: well-formed UTF-8 *)
 Fixpoint utf8_valid_aux (bs : bytes) (fuel : nat) : bool :=
@@ -166,9 +161,9 @@ Definition trim_ascii_ws (bs : bytes) : bytes := rev (drop_while is_ascii_ws (re
 
 Definition from_tz_string (footer : bytes) (ext : bool) : tzres (option trule) :=
   if negb (utf8_valid footer) then TzErr else
-  if negb (match footer with 10 :: _ => true | _ => false end) || negb (match rev footer with 10 :: _ => true | _ => false end) then TzErr else
+  if negb (head_is 10 footer) || negb (head_is 10 (rev footer)) then TzErr else
   let tz := trim_ascii_ws footer in
-  if (match tz with 58 :: _ => true | _ => false end) || contains 0 tz then TzErr else
+  if head_is 58 tz || contains 0 tz then TzErr else
   if (match tz with [] => true | _ => false end) then TzOk None else
   let! cur := remove_designation tz in
   let! '(std_offset, cur) := parse_tz_offset 24 cur in
@@ -177,10 +172,8 @@ Definition from_tz_string (footer : bytes) (ext : bool) : tzres (option trule) :
   | _ =>
       let! cur := remove_designation cur in
       let! '(dst_offset, cur) :=
-        (match cur with
-         | 44 :: _ => TzOk (std_offset - 3600, cur)
-         | _ :: _ => parse_tz_offset 24 cur
-         | [] => TzErr end) in
+        (if head_is 44 cur then TzOk (std_offset - 3600, cur)
+         else match cur with _ :: _ => parse_tz_offset 24 cur | [] => TzErr end) in
       let! cur := read_tag [44] cur in
       let! '(std_end, std_end_time, cur) := parse_rule cur ext in
       let! cur := read_tag [44] cur in
